@@ -224,6 +224,8 @@ func (o *C14) Check(x *h.Exec, ev *h.Event) {
 	saved := x.S.Faults
 	defer func() { x.S.Faults = saved }()
 	enumerated := 0
+	sess := x.S.NewSession()
+	lastQuery := ""
 	for shape := 0; shape < 2; shape++ {
 		for mask := 0; mask < 1<<np; mask++ {
 			if shape == 1 && mask == 0 {
@@ -247,10 +249,29 @@ func (o *C14) Check(x *h.Exec, ev *h.Event) {
 				}
 				enumerated++
 				listed := x.S.Reader().Paths(nil)
+				// history: a decoder that lives across all configurations must answer
+				// like a fresh one. The first request after the faults changed repeats
+				// the previous query (the request a client sends again), then the
+				// queries follow in an order in which later ones extend earlier ones.
+				if lastQuery != "" {
+					salt++
+					q := h.Query{Kind: "symbols_ws", Path: 0, Arg: lastQuery, Order: orderFor(c, salt)}
+					fresh, old := x.Run(q), x.RunIn(sess, q)
+					x.Cov.Probe("workspace_query_repeated_after_fault_change")
+					if fresh.Panic == nil && old.Panic == nil && fresh.Canon() != old.Canon() {
+						x.Report("workspace-history", "symbols_ws", fmt.Sprintf("shape%d", shape), fmt.Sprintf("failing paths %v (shape %d): query %q repeated on a long-lived decoder after the set of readable paths changed differs from the answer of a fresh decoder: %s", keys(failing), shape, lastQuery, firstDiff(fresh.Canon(), old.Canon())), &q)
+						return
+					}
+				}
 				for _, qs := range queries {
 					salt++
 					q := h.Query{Kind: "symbols_ws", Path: 0, Arg: qs, Order: orderFor(c, salt)}
 					r := x.Run(q)
+					if old := x.RunIn(sess, q); r.Panic == nil && old.Panic == nil && r.Canon() != old.Canon() {
+						x.Report("workspace-history", "symbols_ws", fmt.Sprintf("shape%d", shape), fmt.Sprintf("failing paths %v (shape %d): query %q on a long-lived decoder differs from the answer of a fresh decoder: %s", keys(failing), shape, qs, firstDiff(r.Canon(), old.Canon())), &q)
+						return
+					}
+					lastQuery = qs
 					got, ok := r.Val.([]decoder.Symbol)
 					if r.Panic != nil {
 						continue
